@@ -337,7 +337,8 @@ func (self *BinaryConv) unmarshalMap(ctx context.Context, resp http.ResponseSett
 		return wrapError(meta.ErrRead, "parse MapKey Tag error", err)
 	}
 	mapKeyDesc := fd.Key()
-	isIntKey := (mapKeyDesc.Type() == proto.INT32) || (mapKeyDesc.Type() == proto.INT64) || (mapKeyDesc.Type() == proto.UINT32) || (mapKeyDesc.Type() == proto.UINT64)
+	// every key kind but string (any integer kind, bool) is printed bare by unmarshalSingular: a JSON member name must be quoted
+	isIntKey := mapKeyDesc.Type() != proto.STRING
 	if isIntKey {
 		*out = append(*out, '"')
 	}
